@@ -568,6 +568,10 @@ func init() {
 				root = r.Intn(len(moves) + 1)
 			}
 			emit(start, moves, root, randQ(b.Position().IsChecked(b.Turn())), false)
+			if i%4 == 0 && len(moves) > 0 { // the same diagram without its history (same hash; HasMoved / HasCastled / last moves differ)
+				emit(finalFEN(start, moves), nil, 0, "", false)
+				o.Count("bare-diagram")
+			}
 			if i%9 == 0 {
 				opt := []string{"reset=0", "forget=1"}[(i/9)%2]
 				line := fmt.Sprintf("sargon %s ; %s ; root=%d %s", start, strings.Join(moves, " "), root, opt)
